@@ -11,7 +11,7 @@ def sh(cmd, cwd=V, check=True):
         print(p.stdout); raise SystemExit(f"FAILED: {cmd}")
     return p.stdout
 tag = sys.argv[1]
-GEN = ["lean/Exetera.lean", "lean/Driver/Main.lean", "MANIFEST.json"]
+GEN = ["lean/Exetera.lean", "lean/Driver/Main.lean", "MANIFEST.json", "tools/translate.py"]
 out = sh(f"git merge --no-edit wip-{tag}", check=False)
 conf = sh("git diff --name-only --diff-filter=U").split()
 for f in conf:
